@@ -860,6 +860,58 @@ func ruleC13(p *Prog, r *Result) {
 		return false, "the variable table is not consulted"
 	})
 	pr.all("any other string is left unchanged", selectPaths(pr.paths, func(pa *Path) bool { return interp(pa) == -1 && isVar(pa) == -1 }), "returns obj", returnsExactly(objP, "the string itself"))
+	// the template handed to the replacement is the string minus exactly its `$"` opener and its closing quote:
+	// literal text, including quotes and dollars at either end of the body, is output unchanged (seed C13-k:
+	// strings.Trim with the cutset `$"` also strips those)
+	pt := newPSRule(p, r, "C13.template", "bkl.process2StringInterp", PSOpts{})
+	tObj := mParam("obj")
+	stripped := func(t *T) bool {
+		isCall := func(x *T, name, lit string) *T {
+			if x != nil && x.Op == "call" && x.Name == name && len(x.Args) == 2 && mStr(lit)(x.Args[1]) {
+				return x.Args[0]
+			}
+			return nil
+		}
+		if in := isCall(t, "strings.TrimSuffix", `"`); in != nil {
+			if in2 := isCall(in, "strings.TrimPrefix", `$"`); in2 != nil && tObj(in2) {
+				return true
+			}
+		}
+		if in := isCall(t, "strings.TrimPrefix", `$"`); in != nil {
+			if in2 := isCall(in, "strings.TrimSuffix", `"`); in2 != nil && tObj(in2) {
+				return true
+			}
+		}
+		// obj[2 : len(obj)-1]
+		if t != nil && t.Op == "slice" && len(t.Args) == 3 && tObj(t.Args[0]) && t.Args[1].IsConst("2") {
+			hi := t.Args[2]
+			if hi.Op == "binop" && hi.Name == "-" && len(hi.Args) == 2 && hi.Args[1].IsConst("1") && hi.Args[0].Op == "len" && len(hi.Args[0].Args) == 1 && tObj(hi.Args[0].Args[0]) {
+				return true
+			}
+		}
+		return false
+	}
+	pt.all(`the interpolated text is the string between $" and the closing quote, nothing else removed`, pt.paths, "ReplaceAllStringFunc runs over TrimSuffix(TrimPrefix(obj, `$\"`), `\"`)", func(pa *Path) (bool, string) {
+		n := 0
+		for _, e := range pa.Effects {
+			if (e.Kind == "extcall" || e.Kind == "call") && e.Callee == "(*regexp.Regexp).ReplaceAllStringFunc" && len(e.Args) == 3 {
+				n++
+				if !stripped(e.Args[1]) {
+					return false, "the text scanned for references is not the string minus one `$\"` prefix and one `\"` suffix: " + truncate(e.Args[1].String(), 140)
+				}
+			}
+		}
+		if n != 1 {
+			return false, fmt.Sprintf("expected exactly one replacement pass over the template, found %d", n)
+		}
+		return true, ""
+	})
+	pt.all("the result of a successful interpolation is the replaced text itself", selectPaths(pt.paths, isSuccess), "returns what ReplaceAllStringFunc produced", func(pa *Path) (bool, string) {
+		if res := pa.Results[0]; res.Op == "call" && res.Name == "(*regexp.Regexp).ReplaceAllStringFunc" {
+			return true, ""
+		}
+		return false, "the interpolated text is changed after the replacement: " + truncate(pa.Results[0].String(), 140)
+	})
 	// interpolation: error discipline via cells
 	fn := p.Func("bkl.process2StringInterp")
 	// the replacement callback: the function value handed to ReplaceAllStringFunc — a function literal that shares
